@@ -378,8 +378,10 @@ class Interp:
                     v = v.a
                 elif sub_and and any(not_(x) in g for x in sub_and):
                     v = v.b
-                elif isinstance(v.a, Undef) or isinstance(v.b, Undef):
-                    # a name that is unbound on the other path: decide with what unit resolution derives from the guard
+                elif self._excluded_by_equalities(sub_and or (v.c,), g):
+                    v = v.b
+                elif True:
+                    # decide with what unit resolution derives from the guard (not(a and b) with a known gives not b)
                     g2 = set(self.resolved_guard())
                     parts = sub_and or (v.c,)
                     if all(x in g2 for x in parts):
@@ -392,6 +394,20 @@ class Interp:
                     break
             n += 1
         return v
+
+    @staticmethod
+    def _excluded_by_equalities(parts, g):
+        """the path already fixes X == k: a condition that needs X == k' (another constant) cannot hold"""
+        eqs = None
+        for p in parts:
+            if isinstance(p, Op) and p.op == "eq" and len(p.args) == 2 and isinstance(p.args[1], Const) and not isinstance(p.args[0], Const):
+                if eqs is None:
+                    eqs = {c.args[0]: c.args[1] for c in g if isinstance(c, Op) and c.op == "eq" and len(c.args) == 2 and
+                           isinstance(c.args[1], Const)}
+                k = eqs.get(p.args[0])
+                if k is not None and k != p.args[1] and type(k.v) is type(p.args[1].v):
+                    return True
+        return False
 
     def simp_chain(self, v, depth=0):
         """ite(and(G, c), A, ite(and(G, not c), B, U)) under a guard that contains G is ite(c, A, B): conjuncts of the
@@ -484,7 +500,7 @@ class Interp:
         if name in fr.env and name not in fr.globals_decl:
             v = self.simp(fr.env[name])
             if isinstance(v, Undef) and fr.finfo is not None and not name.startswith("<") and node is not None and \
-                    not getattr(self, "_quiet_unbound", False):
+                    not getattr(self, "_quiet_unbound", False) and not str(v.name).startswith("None."):
                 # bound on other paths only: UnboundLocalError on this one
                 self.event("raise", (Op("UnboundLocalError", Const(name)),), node)
                 self.note_raise(self.local_guard(state=True))
@@ -623,7 +639,7 @@ class Interp:
         if isinstance(obj, Ext):
             return Ext(obj.name + "." + name)
         if isinstance(obj, Const) and obj.v is None:
-            return Undef(name)
+            return Undef("None." + name)       # (an attribute of None: no value, but not an unbound name)
         if isinstance(obj, Undef):
             return obj
         if isinstance(obj, Const) and isinstance(obj.v, (str, bytes)) and hasattr(obj.v, name):
@@ -911,6 +927,11 @@ class _ExprMixin:
                     "sliceobj", "structobj", "partial", "namedtuple", "bound", "staticfn", "lambda", "itemgetter", "attrgetter",
                     "methodcaller", "enum", "re.compile", "call:re.compile")):
                 return Const(op == "isnot")       # an object that exists is not None
+            if isinstance(other, Lin) or (isinstance(other, Const) and other.v is not None) or (isinstance(other, Op) and other.op in (
+                    "int_from_bytes", "len", "bitand", "bitor", "bitxor", "rshift", "lshift", "mul", "add", "sub", "mod", "floordiv", "fmt", "concat",
+                    "int", "str", "m:hex", "m:decode", "m:strip", "m:rstrip", "m:lstrip", "m:upper", "m:lower", "chr", "ord", "b2i", "max", "min",
+                    "count", "fv", "hex", "strdecode", "m:tobytes", "bytes", "abs")):
+                return Const(op == "isnot")       # a number / text computed from the data is not None
         if op in ("eq", "ne"):
             # sequences of known length compare element by element
             sa_, sb_ = self.seq_elems(a), self.seq_elems(b)
@@ -950,6 +971,34 @@ class _ExprMixin:
                     # membership in a cache-like dict: opaque but keyed on object
                     return Op(op, a, b2)
         return compare(op, a, b)
+
+    def regex_of_match(self, m_, depth=0):
+        """the constant pattern a match object comes from - directly, or as an element of a list every element of which
+        is a match of one and the same constant expression"""
+        if isinstance(m_, Op) and m_.op in ("m:fullmatch", "m:match", "m:search") and m_.args:
+            rx = m_.args[0]
+            pat = rx.args[0] if isinstance(rx, Op) and rx.op in ("re.compile", "call:re.compile") and rx.args else None
+            return pat if is_const(pat, (str, bytes)) else None
+        if isinstance(m_, Op) and m_.op == "elem" and isinstance(m_.args[0], Ref) and depth < 3:
+            lo = self.as_list(m_.args[0])
+            if lo is not None and lo.items:
+                pats = {self.regex_of_match(it[1] if it[0] == "v" else it[2], depth + 1) for it in lo.items}
+                if len(pats) == 1:
+                    return pats.pop()
+        return None
+
+    def groups_elems(self, sv):
+        """m.groups() of a match of a constant regular expression has as many elements as the expression has groups"""
+        if isinstance(sv, Op) and sv.op == "m:groups" and len(sv.args) == 1:
+            pat = self.regex_of_match(sv.args[0])
+            if pat is not None:
+                import re as _re
+                try:
+                    ng = _re.compile(pat.v).groups
+                except Exception:
+                    return None
+                return [Op("getitem", sv, Const(i)) for i in range(ng)]
+        return None
 
     def seq_elems(self, v):
         v = self.simp(v)
@@ -1299,6 +1348,8 @@ class _CallMixin:
                     args.extend(Const(x) for x in v.v)
                 elif self.concrete_iter(self.simp(v)) is not None and len(self.concrete_iter(self.simp(v))) <= UNROLL_MAX:
                     args.extend(self.concrete_iter(self.simp(v)))
+                elif self.groups_elems(self.simp(v)) is not None:
+                    args.extend(self.groups_elems(self.simp(v)))
                 else:
                     args.append(Op("starred", v))
             else:
@@ -2338,19 +2389,9 @@ class _StmtMixin:
         if isinstance(p, ast.MatchSequence) and not any(isinstance(x, ast.MatchStar) for x in p.patterns):
             els = self.seq_elems(subj)
             sv = self.simp(subj)
-            if els is None and isinstance(sv, Op) and sv.op == "m:groups" and len(sv.args) == 1:
+            if els is None:
                 # the groups of a match of a constant regular expression: as many as the expression has
-                m_ = sv.args[0]
-                rx = m_.args[0] if isinstance(m_, Op) and m_.op in ("m:fullmatch", "m:match", "m:search") and m_.args else None
-                pat = rx.args[0] if isinstance(rx, Op) and rx.op in ("re.compile", "call:re.compile") and rx.args else None
-                if is_const(pat, (str, bytes)):
-                    import re as _re
-                    try:
-                        ng = _re.compile(pat.v).groups
-                    except Exception:
-                        ng = None
-                    if ng is not None:
-                        els = [Op("getitem", sv, Const(i)) for i in range(ng)]
+                els = self.groups_elems(sv)
             if els is None and any(isinstance(x, Undef) for x in walk(sv)):
                 return FALSE, []        # the subject is unbound on this path (a path the analysis could not rule out earlier)
             if els is None:
@@ -2444,7 +2485,25 @@ class _StmtMixin:
 
 
 class _LoopMixin:
+    def enum_members(self, cinfo):
+        """members of an enumeration class in definition order (aliases - a repeated value - are not iterated)"""
+        out, seen = [], []
+        for st in cinfo.node.body:
+            if isinstance(st, ast.Assign) and len(st.targets) == 1 and isinstance(st.targets[0], ast.Name) and not st.targets[0].id.startswith("_"):
+                mv = self.class_attr(cinfo, st.targets[0].id)
+                if mv is None or isinstance(mv, FuncV):
+                    continue
+                if not isinstance(mv, Const):
+                    return None
+                if mv in seen:
+                    continue
+                seen.append(mv)
+                out.append(Op("enum", Const(cinfo.qual), Const(st.targets[0].id), mv))
+        return out
+
     def concrete_iter(self, it):
+        if isinstance(it, ClassV) and it.info.is_enum:
+            return self.enum_members(it.info)
         if isinstance(it, Const) and isinstance(it.v, (tuple, str, bytes, range)):
             try:
                 return [Const(x) for x in it.v]
@@ -2471,6 +2530,50 @@ class _LoopMixin:
             if all(i is not None for i in inners):
                 return [self.mk_list(list(t), "tuple") for t in zip(*inners)]
         return None
+
+    def small_count_guards(self, n):
+        """n is a count made of a few truth values (int(c), 1 if c else 0, sums of those): the conditions g_0, g_1, ..
+        under which n > 0, n > 1, ..; None when n is not of that kind"""
+        import itertools
+        from .terms import evaluate, CannotEval
+        conds = []
+
+        def scan(t):
+            if isinstance(t, Ite):
+                if t.c not in conds:
+                    conds.append(t.c)
+                scan(t.a), scan(t.b)
+            elif isinstance(t, Op) and t.op in ("int", "b2i", "call:int") and len(t.args) == 1:
+                if t.args[0] not in conds:
+                    conds.append(t.args[0])
+            elif isinstance(t, Lin):
+                for x, _ in t.terms:
+                    scan(x)
+            elif isinstance(t, Op) and t.op in ("add", "max", "min"):
+                for a in t.args:
+                    scan(a)
+        scan(n)
+        if not conds or len(conds) > 3:
+            return None
+        rows = []
+        for bits in itertools.product((False, True), repeat=len(conds)):
+            env = dict(zip(conds, bits))
+            for c, b in zip(conds, bits):
+                env[Op("int", c)] = int(b)
+                env[Op("b2i", c)] = int(b)
+                env[Op("call:int", c)] = int(b)
+            try:
+                v = evaluate(n, env)
+            except Exception:
+                return None
+            if not isinstance(v, int) or isinstance(v, bool) and False or v < 0 or v > 3:
+                return None
+            rows.append((bits, int(v)))
+        top = max(v for _, v in rows)
+        out = []
+        for i in range(top):
+            out.append(or_(*[and_(*[c if b else not_(c) for c, b in zip(conds, bits)]) for bits, v in rows if v > i]))
+        return out
 
     def st_For(self, st):
         it = self.simp(self.ev(st.iter))
@@ -3089,6 +3192,11 @@ class _ExtMixin:
         if _stringy(a[0]):
             return a[0]
         return Op("str", a[0])
+
+    def x_format(self, a, k, n):
+        # format(value[, spec]) is '{:spec}'.format(value)
+        spec = a[1] if len(a) > 1 else Const("")
+        return fmt([fv(a[0], spec if not is_const(spec, str) else spec.v, "")])
 
     def x_hex(self, a, k, n):
         if is_int(a[0]):
@@ -3875,6 +3983,32 @@ def _orig_st_For_with(self, st, it):
             for kk in range(max(lv)):
                 ctl.cont = []
                 self.guard.append(self.truth(compare("gt", it.args[0], Const(kk))))
+                try:
+                    if self.feasible():
+                        self.assign(st.target, Const(kk), st)
+                        self.exec_block(st.body)
+                finally:
+                    self.guard.pop()
+            ctl.cont = []
+            brk = list(ctl.brk)
+            fr.loop_stack.pop()
+            if st.orelse:
+                self.guard.append(and_(*[not_(b) for b in brk]))
+                if self.feasible():
+                    self.exec_block(st.orelse)
+                self.guard.pop()
+            return
+    if elems is None and isinstance(it, Op) and it.op == "range" and len(it.args) == 1 and not isinstance(it.args[0], Const):
+        # range(<0..3 made of truth values: int(c), sums of 1 if c else 0>): iteration i runs when the count exceeds i
+        gs = self.small_count_guards(it.args[0])
+        if gs is not None:
+            ctl = LoopCtl()
+            fr.loop_stack.append(ctl)
+            self.event("loop_unrolled", (len(gs),), st)
+            ctl.base_set = flat_set(self.cur_guard_list(state=True))
+            for kk, g in enumerate(gs):
+                ctl.cont = []
+                self.guard.append(g)
                 try:
                     if self.feasible():
                         self.assign(st.target, Const(kk), st)
